@@ -51,14 +51,30 @@ def seed_partners(rng, seed):
     return sorted(out)
 
 
-def pit_failures(ck, U, conds):
+def pit_failures(ck, U, conds, x=None):
     """distribution-free tests of a matrix of PIT values: every column ~ U(0,1) (DKW), pairs of columns ~ product
-    measure on a 4x4 partition (Hoeffding per cell, union over the 16 cells)"""
+    measure on a 4x4 partition (Hoeffding per cell, union over the 16 cells). With the sample `x`: the PIT values of a
+    conditional dimension are U(0,1) GIVEN the conditioning value of their row, hence also within every group of rows
+    selected by the conditioning column alone: DKW within the quartile groups of that column."""
     n, n_dim = U.shape
     bad = []
     eps = dkw_eps(n)
     if not np.all(np.isfinite(U)):
         return [("drawn_from_conditional_given_same_row", "PIT values are not finite")]
+    if x is not None:
+        for i in range(n_dim):
+            if conds[i] is None:
+                continue
+            order = np.argsort(x[:, conds[i]], kind="stable")
+            for q, rows in enumerate(np.array_split(order, 4)):
+                d = ks_uniform(U[rows, i])
+                ck.hyp_checked += 1
+                if d > dkw_eps(len(rows)):
+                    bad.append(("drawn_from_conditional_given_same_row",
+                                f"dimension {i}, rows in group {q} of the conditioning column {conds[i]} (values "
+                                f"{x[rows[0], conds[i]]:.4g}..{x[rows[-1], conds[i]]:.4g}): PIT KS {d:.4f} > "
+                                f"{dkw_eps(len(rows)):.4f}"))
+                    break
     for i in range(n_dim):
         d = ks_uniform(U[:, i])
         ck.hyp_checked += 1
@@ -95,7 +111,8 @@ def reproducibility_failures(rng, build, n, seed, first):
     seeded Generators give identical samples on two different objects; int seed repeats; seed pairs (s, t) differ."""
     bad = []
     m1, m2 = build(), build()
-    m1.draw_sample(n + 1, random_state=seed ^ 5)          # earlier draw on the same object
+    m1.draw_sample(n + 1, random_state=seed ^ 5)          # earlier draws on the same object: another size,
+    m1.draw_sample(n, random_state=seed ^ 3)              # the same size with another seed
     again = np.asarray(m1.draw_sample(n, random_state=seed))
     if not np.array_equal(first, again):
         bad.append(("reproduces_on_second_object_after_earlier_draw",
@@ -371,7 +388,7 @@ def process_joint_stat(ck, case):
                 ci = m.cond[i]
                 U[:, i] = model.distributions[i].cdf(x[:, i]) if ci is None else \
                     model.distributions[i].cdf(x[:, i], given=x[:, ci])
-            bad += pit_failures(ck, U, m.cond)
+            bad += pit_failures(ck, U, m.cond, x)
             g1 = np.asarray(model.draw_sample(n, random_state=np.random.default_rng(seed)))
             g2 = np.asarray(model.draw_sample(n, random_state=np.random.default_rng(seed)))
             if not (np.array_equal(x, np.asarray(model.draw_sample(n, random_state=seed))) and np.array_equal(g1, g2)):
@@ -426,6 +443,17 @@ def ext_base_value(rng, fam, par):
     return models.base_value(rng, fam, par)
 
 
+def strong_dep(rng, level, q25, q50, q75, location, real_given):
+    """(kind, pars) of a dependence function that is positive, of the order of `level`, and changes by a factor of
+    about 2..5 between the lower and the upper quartile (q25, q75) of the conditioning variable, so that a sampler which
+    ignores, averages or permutes a vector parameter is visible in the within-group DKW test"""
+    u = rng.uniform
+    iqr = max(q75 - q25, 1e-3)
+    if (location or not real_given) and q25 > 0 and rng.integers(0, 2):
+        return "linear2", [level * u(0.2, 0.4), level * u(0.6, 1.2) / iqr]
+    return "logistics4", [level * u(0.3, 0.6), level * u(0.6, 1.2), u(3.0, 6.0) / iqr, q50]
+
+
 class ExtModel(models.FamModel):
     """FamModel over all shipped families (EXT); parameters of row j are evaluated here, directly from the
     dependence callables (vectorised), not by virocon"""
@@ -461,23 +489,44 @@ class ExtModel(models.FamModel):
         return [d["family"] for d in self.dims]
 
 
+def pilot_quartiles(dims, c):
+    """quartiles of column c of the model made of the dimensions defined so far (only used to SHAPE a test input; any
+    outcome gives a valid model)"""
+    try:
+        with np.errstate(all="ignore"), warnings.catch_warnings():
+            warnings.simplefilter("ignore")
+            col = np.asarray(ExtModel(list(dims)).build().draw_sample(4000, random_state=0))[:, c]
+        q = [float(v) for v in np.quantile(col, [0.25, 0.5, 0.75])]
+        return q if np.all(np.isfinite(q)) and q[2] > q[0] else None
+    except Exception:
+        return None
+
+
 def ext_model_from_desc(desc):
     return ExtModel(models.fam_model_from_desc(desc).dims)
 
 
-def random_ext_model(rng, n_dim, cond=None, must=None):
-    """random model over all families; `must` (a family of NEW_FAMS) is placed in a random dimension. A dimension
-    conditional on a real-valued variable only gets dependence functions that are defined (and positive where a
-    positive parameter is required) for every real argument."""
+def random_ext_model(rng, n_dim, cond=None, must=None, role=None):
+    """random model over all families; `must` (a family) is placed in a random dimension, or, with role =
+    "conditional-all-dependent", in a conditional dimension all of whose free parameters get a dependence function
+    (every parameter reaches the family's sampler as a vector), or, with role = "conditioning", in a dimension that
+    another one is conditional on. A dimension conditional on a real-valued variable only gets dependence functions
+    that are defined (and positive where a positive parameter is required) for every real argument."""
     if cond is None:
         cond = doubles.random_structure(rng, n_dim)
         if all(c is None for c in cond):
             cond[n_dim - 1] = int(rng.integers(0, n_dim - 1))
     fams = [str(rng.choice(list(EXT))) for _ in range(n_dim)]
+    pos = None
     if must is not None:
         # prefer a conditional dimension (vector parameters through ConditionalDistribution) two times out of three
         conditional = [i for i in range(n_dim) if cond[i] is not None]
-        pos = int(rng.choice(conditional)) if conditional and rng.integers(0, 3) > 0 else int(rng.integers(0, n_dim))
+        if role == "conditioning":
+            pos = int(rng.choice(sorted({c for c in cond if c is not None})))
+        elif role == "conditional-all-dependent" or (conditional and rng.integers(0, 3) > 0):
+            pos = int(rng.choice(conditional))
+        else:
+            pos = int(rng.integers(0, n_dim))
         fams[pos] = must
     dims = []
     for i in range(n_dim):
@@ -489,18 +538,26 @@ def random_ext_model(rng, n_dim, cond=None, must=None):
                 params[nme] = ("fixed", ext_base_value(rng, fam, nme))
         else:
             real_given = fams[cond[i]] in REAL_VALUED
+            quart = None
             free = [nme for nme in names if (fam, nme) not in ALWAYS_FIXED]
             forced = str(rng.choice(free))
             for nme in names:
                 level = ext_base_value(rng, fam, nme)
-                if nme in free and (nme == forced or rng.integers(0, 3) > 0):
+                if nme in free and (nme == forced or rng.integers(0, 3) > 0
+                                    or (role == "conditional-all-dependent" and i == pos)):
                     if (fam, nme) in LOCATION:
                         kinds = ["linear2", "logistics4", "exp3"] if real_given else ["lnsquare2", "linear2", "power3"]
                         level = max(abs(level), 0.3)
                     else:
                         kinds = ["logistics4", "exp3"] if real_given else ["power3", "exp3", "asym3", "logistics4", "linear2"]
                     kind = str(rng.choice(kinds))
-                    params[nme] = ("dep", kind, [float(v) for v in models.random_dep_pars(rng, kind, level)])
+                    pars = models.random_dep_pars(rng, kind, level)
+                    if role == "conditional-all-dependent" and i == pos:
+                        if quart is None:
+                            quart = pilot_quartiles(dims, cond[i])
+                        if quart is not None:
+                            kind, pars = strong_dep(rng, level, *quart, (fam, nme) in LOCATION, real_given)
+                    params[nme] = ("dep", kind, [float(v) for v in pars])
                 else:
                     params[nme] = ("fixed", level)
         dims.append({"family": fam, "cond": cond[i], "params": params})
@@ -525,20 +582,16 @@ def ext_pit(m, model, x):
 
 
 def gen_ext_cases(rng, thorough):
-    big = 200000 if thorough else 20000
-    # statistics: every new family at least once per run, in 2-D and 3-D
+    big = 400000 if thorough else 100000     # the within-group DKW test needs ~25000 rows per group to see a 30 % scale error
+    # statistics: every family that the older parts do not sample jointly, in 2-D and 3-D, once as a conditional
+    # dimension with EVERY free parameter dependent (vector parameters through ConditionalDistribution; von Mises
+    # compared modulo 2 pi) and once as the conditioning variable of another dimension
     for k, fam in enumerate(NEW_FAMS * (3 if thorough else 1)):
-        n_dim = 2 + (k + int(rng.integers(0, 2))) % 2
-        m = random_ext_model(rng, n_dim, must=fam)
-        yield {"part": "D", "model": m.describe(), "n": big, "seed": int(rng.integers(0, 2**32)),
-               "rs": str(rng.choice(["int", "generator"])), "must": fam}
-    # von Mises with vector parameters through ConditionalDistribution, explicitly
-    for _ in range(3 if thorough else 1):
-        m = random_ext_model(rng, 2, cond=[None, 0], must=None)
-        while m.dims[1]["family"] != "VonMises" or not all(s[0] == "dep" for s in m.dims[1]["params"].values()):
-            m = random_ext_model(rng, 2, cond=[None, 0], must="VonMises")
-        yield {"part": "D", "model": m.describe(), "n": big, "seed": int(rng.integers(0, 2**32)), "rs": "int",
-               "must": "VonMises-vector-parameters"}
+        for role in ("conditional-all-dependent", "conditioning"):
+            n_dim = 2 + (k + int(rng.integers(0, 2))) % 2
+            m = random_ext_model(rng, n_dim, must=fam, role=role)
+            yield {"part": "D", "model": m.describe(), "n": big, "seed": int(rng.integers(0, 2**32)),
+                   "rs": str(rng.choice(["int", "generator"])), "must": fam, "role": role}
     # random_state=None with statistics
     for _ in range(6 if thorough else 2):
         m = random_ext_model(rng, int(rng.choice([2, 3])))
@@ -551,6 +604,33 @@ def gen_ext_cases(rng, thorough):
         yield {"part": "D", "model": m.describe(), "n": int(rng.choice([1, 1, 2, 3])),
                "seed": int(rng.choice([0, 1, 2**32 - 1])) if k % 10 == 0 else int(rng.integers(0, 2**32)),
                "rs": str(rng.choice(["int", "generator", "none"])), "chain": cond is not None}
+
+
+def ext_failures(ck, m, model, n, seed, rs_kind):
+    bad = []
+    if rs_kind == "none":
+        bad, x = none_failures(lambda r: model.draw_sample(n, random_state=r), (n, m.n_dim))
+        ok_shape = not bad or bad[0][0] == "none_draws_differ"
+    else:
+        rs = seed if rs_kind == "int" else np.random.default_rng(seed)
+        x = np.asarray(model.draw_sample(n, random_state=rs))
+        ok_shape = x.shape == (n, m.n_dim)
+        if not ok_shape:
+            bad.append(("shape_n_by_ndim", f"shape {x.shape} expected {(n, m.n_dim)}"))
+        elif not np.all(np.isfinite(x)):
+            bad.append(("sample_finite", "non-finite values in the sample of a model with valid parameters"))
+    if ok_shape and n >= 1000 and np.all(np.isfinite(x)):
+        bad += pit_failures(ck, ext_pit(m, model, x), m.cond, x)
+        ck.count("D_statistics")
+    if ok_shape and rs_kind != "none":
+        first = x if rs_kind == "int" else np.asarray(model.draw_sample(n, random_state=seed))
+        if rs_kind == "generator" and not np.array_equal(
+                x, np.asarray(model.draw_sample(n, random_state=np.random.default_rng(seed)))):
+            bad.append(("same_seed_reproduces", f"identically seeded Generator ({seed}), same object"))
+        if not np.array_equal(first, np.asarray(model.draw_sample(n, random_state=seed))):
+            bad.append(("same_seed_reproduces", f"int seed {seed}, same object"))
+        bad += reproducibility_failures(np.random.default_rng(seed), m.build, n, seed, first)
+    return bad
 
 
 def process_ext(ck, case):
@@ -569,28 +649,10 @@ def process_ext(ck, case):
     with np.errstate(all="ignore"), warnings.catch_warnings():
         warnings.simplefilter("ignore")
         model = m.build()
-        if rs_kind == "none":
-            bad, x = none_failures(lambda r: model.draw_sample(n, random_state=r), (n, m.n_dim))
-            ok_shape = not bad or bad[0][0] == "none_draws_differ"
-        else:
-            rs = seed if rs_kind == "int" else np.random.default_rng(seed)
-            x = np.asarray(model.draw_sample(n, random_state=rs))
-            ok_shape = x.shape == (n, m.n_dim)
-            if not ok_shape:
-                bad.append(("shape_n_by_ndim", f"shape {x.shape} expected {(n, m.n_dim)}"))
-            elif not np.all(np.isfinite(x)):
-                bad.append(("sample_finite", "non-finite values in the sample of a model with valid parameters"))
-        if ok_shape and n >= 1000 and np.all(np.isfinite(x)):
-            bad += pit_failures(ck, ext_pit(m, model, x), m.cond)
-            ck.count("D_statistics")
-        if ok_shape and rs_kind != "none":
-            first = x if rs_kind == "int" else np.asarray(model.draw_sample(n, random_state=seed))
-            if rs_kind == "generator" and not np.array_equal(
-                    x, np.asarray(model.draw_sample(n, random_state=np.random.default_rng(seed)))):
-                bad.append(("same_seed_reproduces", f"identically seeded Generator ({seed}), same object"))
-            if not np.array_equal(first, np.asarray(model.draw_sample(n, random_state=seed))):
-                bad.append(("same_seed_reproduces", f"int seed {seed}, same object"))
-            bad += reproducibility_failures(np.random.default_rng(seed), m.build, n, seed, first)
+        try:
+            bad = ext_failures(ck, m, model, n, seed, rs_kind)
+        except Exception as e:      # the models of this part have valid (finite, in-domain) parameters in every row
+            bad = [("draw_sample_raises_on_valid_model", f"{type(e).__name__}: {str(e)[:200]}")]
     for pred, detail in bad:
         ck.fail({"entry": "GlobalHierarchicalModel.draw_sample", "predicate": pred}, case, detail)
 
@@ -610,7 +672,10 @@ def process_univariate_small_case(ck, case, dist=None):
     ck.case(case, nontrivial=True, sample=False)
     ck.count("part=E-univariate-small-n")
     ck.count(f"E_n={case['n']}")
-    bad = univariate_small_failures(np.random.default_rng(case["seed"]), dist, case["n"], case["seed"])
+    try:
+        bad = univariate_small_failures(np.random.default_rng(case["seed"]), dist, case["n"], case["seed"])
+    except Exception as e:
+        bad = [("draw_sample_raises_on_valid_model", f"{type(e).__name__}: {str(e)[:200]}")]
     for pred, detail in bad:
         ck.fail({"entry": "Distribution.draw_sample", "predicate": pred, "family": case["family"]}, case, detail)
 
@@ -746,7 +811,7 @@ def process_fitted(ck, case):
             else:
                 ck.count("F_statistics")
                 ck.count(f"F_n_dim={model.n_dim}")
-                bad += pit_failures(ck, U, list(model.conditional_on))
+                bad += pit_failures(ck, U, list(model.conditional_on), x)
             if not np.array_equal(x, np.asarray(model.draw_sample(n, random_state=seed)), equal_nan=True):
                 bad.append(("same_seed_reproduces", f"int seed {seed}, fitted model"))
             g1 = np.asarray(model.draw_sample(n, random_state=np.random.default_rng(seed)))
